@@ -136,6 +136,7 @@ async def check_expression(ctx, case):
 async def run(ctx):
     rng = ctx.rng
     E.install()
+    await small_scope(ctx)
     for i in range(ctx.budget(1000, 100_000)):
         r = rng.random()
         # more format constraints than in C04: that is what this property is about
@@ -146,6 +147,19 @@ async def run(ctx):
             rcs = G.keys_of(ast, "rc")
             asg = {k: "F" for k in rcs}
             ctx.sample({"s": case["s"], "all_fulfilled_reference_collection": repr(logic.ref_fc(ast, asg))}, cls="expression")
+
+
+async def small_scope(ctx):
+    """EVERY valid expression with up to 3 (thorough: 4) leaves over {[1], [2], [501], [901], [902]} x all assignments x all truth assignments"""
+    idx = 0
+    for n in range(1, (3 if ctx.quick else 4) + 1):
+        for ast in G.enumerate_asts(n):
+            idx += 1
+            if not ctx.mine(idx) or logic.structurally_invalid(ast):
+                continue
+            await check_expression(ctx, {"ast": ast, "s": G.render(ast, ctx.rng, G.Style(p_redundant=0.0, flat_runs=0.0, spell=0, ws=""))})
+            ctx.count("small_scope_expressions")
+    ctx.note("small_scope", "every structurally valid expression of the evaluation domain with up to %d leaves over 2 requirement keys, 1 hint, 2 format constraints" % (3 if ctx.quick else 4))
 
 
 async def replay(ctx, phase, case):
